@@ -467,9 +467,59 @@ theorem clean_session_completes (scheme b l e aL aS nL n : Nat) (hb : 0 < b) (he
   simp only [hq, hrx]
   rw [if_pos hagree, hmap]
 
+/-- list helper for `blocks_minimal`: a list of numbers each `≤ b` sums to at most `length · b` -/
+private theorem sum_le_length_mul (ks : List Nat) (b : Nat) (h : ∀ k ∈ ks, k ≤ b) : ks.sum ≤ ks.length * b := by
+  induction ks with
+  | nil => simp
+  | cons k ks ih =>
+    have h1 : k ≤ b := h k (by simp)
+    have h2 := ih (fun x hx => h x (by simp [hx]))
+    simp only [List.sum_cons, List.length_cons, Nat.add_mul, Nat.one_mul]
+    omega
+
+/-- (8) `N` is OPTIMAL, not merely admissible (RFC 5052 §9.1: "the smallest number of source blocks"): ANY way of
+    cutting the `T` symbols of the object into blocks of at most `B` symbols — any list of block sizes, equal or not —
+    uses at least `N` blocks; with `partition_covers` (the RFC quadruple IS such a cut, with `N` blocks) the block count
+    both ends compute is the minimum. -/
+theorem blocks_minimal (b l e : Nat) (hb : 0 < b) (he : 0 < e) (hl0 : 0 < l)
+    (ks : List Nat) (hk : ∀ k ∈ ks, k ≤ b) (hsum : ks.sum = (rfc5052 l e b).T) :
+    (rfc5052 l e b).N ≤ ks.length := by
+  have ⟨h1, h2, _, _, _⟩ := spec_fields b l e hb he hl0
+  have ⟨_, s2⟩ := divCeil_spec (divCeil l e) b hb
+  have hle := sum_le_length_mul ks b hk
+  rw [hsum, h1] at hle
+  rw [h2]
+  -- N·B < T + B and T ≤ |ks|·B: were |ks| < N we had (|ks|+1)·B ≤ N·B
+  rcases Nat.lt_or_ge ks.length (divCeil (divCeil l e) b) with hlt | hge
+  · exfalso
+    have : (ks.length + 1) * b ≤ divCeil (divCeil l e) b * b := Nat.mul_le_mul_right b hlt
+    rw [Nat.add_mul] at this; omega
+  · exact hge
+
+/-- … and the RFC cut itself is such a list: `N` block sizes `symbolsOf 0 … symbolsOf (N-1)`, none above `B`
+    (so the bound of `blocks_minimal` is attained by what sender and receiver compute). -/
+theorem blocks_minimal_attained (b l e : Nat) (hb : 0 < b) (he : 0 < e) (hl0 : 0 < l) :
+    let p := rfc5052 l e b
+    let ks := (List.range p.N).map p.symbolsOf
+    ks.length = p.N ∧ ∀ k ∈ ks, k ≤ b := by
+  intro p ks
+  have hc := partition_covers b l e hb he hl0
+  simp only at hc
+  obtain ⟨_, hB, hSL, _⟩ := hc
+  refine ⟨by simp [ks], ?_⟩
+  intro k hk
+  simp only [ks, List.mem_map, List.mem_range] at hk
+  obtain ⟨i, _, rfl⟩ := hk
+  unfold Rfc5052.symbolsOf
+  split
+  · exact hB
+  · exact Nat.le_trans hSL hB
+
 /-! ### non-vacuity: concrete instances meeting the hypotheses, with unequal blocks -/
 
 example : blockPartitioning 3 23 4 = .ok (3, 3, 0, 2) := by rfl
+/-- `blocks_minimal` is not vacuous: 34 symbols, B = 5: the cut [5,5,5,5,5,5,4] has 7 = N blocks, and no 6-block cut exists -/
+example : (rfc5052 100 3 5).N = 7 ∧ ([5,5,5,5,5,5,4] : List Nat).sum = (rfc5052 100 3 5).T := by decide
 example : blockPartitioning 4 23 4 = .ok (3, 3, 0, 2) := by rfl
 example : blockPartitioning 5 100 3 = .ok (5, 4, 6, 7) := by rfl
 example : rfc5052 100 3 5 = { T := 34, N := 7, aLarge := 5, aSmall := 4, I := 6 } := by decide
